@@ -292,10 +292,13 @@ FAMILY = {
 }
 
 PROP_FAMILIES = {
-    "C01": ["money", "restart"], "C02": ["money", "lifecycle", "params"], "C03": ["binding", "money"], "C04": ["money", "lifecycle", "params"],
-    "C05": ["binding", "lifecycle"], "C06": ["money"], "C07": ["money"], "C08": ["lifecycle", "params"],
-    "C09": ["lifecycle", "restart", "react"], "C10": ["lifecycle", "params", "restart"], "C11": ["lifecycle", "params", "restart", "react"], "C12": ["lifecycle", "react"],
-    "C13": ["money"], "C14": ["binding", "money", "params"], "C15": ["binding"], "C16": ["lifecycle", "params", "restart", "react"],
+    "C01": ["money", "restart", "two"], "C02": ["money", "lifecycle", "params", "two"], "C03": ["binding", "money", "collateral"],
+    "C04": ["money", "lifecycle", "params", "collateral", "two"], "C05": ["binding", "lifecycle", "collateral"], "C06": ["money", "two"],
+    "C07": ["money", "two"], "C08": ["lifecycle", "params", "two"],
+    "C09": ["lifecycle", "restart", "react", "two"], "C10": ["lifecycle", "params", "restart", "two"],
+    "C11": ["lifecycle", "params", "restart", "react", "two"], "C12": ["lifecycle", "react"],
+    "C13": ["money"], "C14": ["binding", "money", "params", "collateral"], "C15": ["binding"],
+    "C16": ["lifecycle", "params", "restart", "react", "two"],
     "C19": ["money"],
 }
 
